@@ -779,6 +779,9 @@ func (e *Env) call(x ECall) EVal {
 		for i := len(e.st.Calls) - 1; i >= 0; i-- {
 			ev := e.st.Calls[i]
 			for _, d := range ev.Desigs {
+				if d == name && ev.Havoc {
+					efail("lastresult(%s): the last call may have happened in a loop that was cut here; state the fact in the loop invariant instead", name)
+				}
 				if d == name {
 					if idx < len(ev.Res) {
 						var ty types.Type
@@ -809,6 +812,9 @@ func (e *Env) call(x ECall) EVal {
 		for i := len(e.st.Calls) - 1; i >= 0; i-- {
 			ev := e.st.Calls[i]
 			for _, d := range ev.Desigs {
+				if d == name && ev.Havoc {
+					efail("lastarg(%s): the last call may have happened in a loop that was cut here", name)
+				}
 				if d == name {
 					if idx < len(ev.Args) {
 						var ty types.Type
@@ -823,19 +829,16 @@ func (e *Env) call(x ECall) EVal {
 		}
 		efail("lastarg: no call to %q on this path", name)
 	case "called":
-		// called("designator"): at least one call on this path (syntactic, per path)
+		// called("designator"): at least one call so far (the ghost counter, which is a
+		// literal on loop-free paths and symbolic after a loop has been cut)
 		name := ""
 		if sv, ok := x.Args[0].(EStr); ok {
 			name = sv.V
 		} else {
 			name = exprName(x.Args[0])
 		}
-		for _, ev := range e.st.Calls {
-			for _, d := range ev.Desigs {
-				if d == name {
-					return EVal{T: True}
-				}
-			}
+		if c, ok := e.st.CallCnt[name]; ok {
+			return EVal{T: Ge(c, IntLit(1))}
 		}
 		return EVal{T: False}
 	case "fresh":
